@@ -119,7 +119,20 @@ pub fn run_c07(ctx: &mut Ctx, _replay: Option<&[String]>) {
             let k = match format!("{:?}", size).as_str() { "K1024" => 1024, "K4096" => 4096, _ => 16384 };
             // quick tier: of the three k = 16384 codes only rate 4/5 (M = 2048; the model expands it in 5 s, rate 1/2 takes 3.5 min)
             if k == 16384 && !ctx.thorough && format!("{:?}", rate) != "R4_5" {
-                ctx.tag("k16384-skipped-in-quick-tier");
+                // ... but a sample of a few hundred of their rows (block boundaries and random ones) is compared with the model's rows, which
+                // it computes one at a time from the standard's tables (the permutation offsets of the largest M appear only here)
+                ctx.tag("k16384-sampled-rows-in-quick-tier");
+                let Ok(h) = guarded(move || ccsds::AR4JACode::new(rate, size).h()) else {
+                    ctx.emit(&format!("c07 ar4ja {:?} {}", rate, k), "construction-panicked", true, &["ar4ja", "construction-panicked"]);
+                    continue;
+                };
+                let m = h.num_rows() / 3;
+                let mut rs: Vec<usize> = vec![0, 1, 2, m - 1, m, m + 1, 2 * m - 1, 2 * m, 2 * m + 1, 3 * m - 1, m / 2, m + m / 4, 2 * m + 3 * m / 4];
+                for _ in 0..240 { rs.push(rng.below(3 * m)); }
+                rs.retain(|&r| r < h.num_rows());
+                let rows: Vec<Vec<usize>> = rs.iter().map(|&r| h.iter_row(r).copied().collect()).collect();
+                ctx.emit(&format!("c07 ar4jarows {:?} {} {}", rate, k, rs.iter().map(|r| r.to_string()).collect::<Vec<_>>().join(",")),
+                    &format!("{} {} {}", h.num_rows(), h.num_cols(), ll(&rows)), true, &["ar4ja-sampled-rows"]);
                 continue;
             }
             let Ok(h) = guarded(move || ccsds::AR4JACode::new(rate, size).h()) else {
